@@ -33,20 +33,30 @@ var cliParamNames = map[string]bool{"A": true, "B": true, "K": true, "T": true, 
 // what the always-succeeding first step prints into its output variable
 var outvPool = []string{"tok=abc123==", "plain", "two words", "k=v", "", "x==y"}
 
+// bigRecord is set per case (one case at a time per process).
+var bigRecord bool
+
 func cliYAML(c *sim.Case, work, stepper, defaults string, changed bool) string {
 	// vp_prod always succeeds and captures an output variable; every other step
 	// runs after it (and so sees the variable); TAG is an env: entry computed by
 	// a command when the definition is loaded
-	steps := []any{yaml.MapSlice{{Key: "name", Value: "vp_prod"}, {Key: "command", Value: "cat " + work + "/outv.txt"}, {Key: "output", Value: "OUTV"}}}
+	prod := yaml.MapSlice{{Key: "name", Value: "vp_prod"}, {Key: "command", Value: "cat " + work + "/outv.txt"}, {Key: "output", Value: "OUTV"}}
+	if bigRecord {
+		// the run's record (one JSON line per status) is larger than 64 KiB
+		prod = append(prod, yaml.MapItem{Key: "description", Value: strings.Repeat("d", 70000)})
+	}
+	steps := []any{prod}
 	for _, s := range c.Steps {
 		s.Depends = append(append([]string(nil), s.Depends...), "vp_prod")
 		k := 0
 		if s.FailFirst != 0 {
 			k = 1
 		}
-		cmd := fmt.Sprintf("%s %s %s %d", stepper, work, s.Name, k)
+		// the last argument is quoted and holds blanks: a re-executed step gets
+		// the argument list of the recorded step, not a re-split one
+		cmd := fmt.Sprintf("%s %s %s %d \"arg with blanks\"", stepper, work, s.Name, k)
 		if changed {
-			cmd += " changed"
+			cmd = fmt.Sprintf("%s %s %s %d changed", stepper, work, s.Name, k)
 		}
 		m := yaml.MapSlice{{Key: "name", Value: s.Name}, {Key: "command", Value: cmd}}
 		if len(s.Depends) > 0 {
@@ -104,6 +114,7 @@ func checkCLI(t rep.Fataler, c AgentCase) {
 	os.MkdirAll(work, 0o755)
 	const defaults = "d1 d2 D=default E=other"
 	params := paramPool[c.Params%len(paramPool)]
+	bigRecord = (c.Params+c.Edit+len(c.Dag.Steps))%3 == 0
 	os.WriteFile(filepath.Join(work, "outv.txt"), []byte(outvPool[(c.Params+c.Edit)%len(outvPool)]+"\n"), 0o644)
 	os.WriteFile(filepath.Join(work, "tag.txt"), []byte("run-A\n"), 0o644)
 	file, err := h.WriteDAG("c10cli", cliYAML(&c.Dag, work, stepper, defaults, false))
@@ -247,6 +258,11 @@ func checkCLI(t rep.Fataler, c AgentCase) {
 	// what the env: entry evaluates to has changed by the time of the retry, and
 	// so has what the producer would print: the retry runs the RECORDED steps
 	// with the recorded variables and the recorded output
+	if ms, _ := filepath.Glob(filepath.Join(work, "*.arg*")); true {
+		for _, m := range ms {
+			os.Remove(m)
+		}
+	}
 	os.WriteFile(filepath.Join(work, "allok"), nil, 0o644) // in the retry every step succeeds (also one that runs for the first time)
 	os.WriteFile(filepath.Join(work, "tag.txt"), []byte("run-B\n"), 0o644)
 	os.WriteFile(filepath.Join(work, "outv.txt"), []byte("printed-only-if-the-producer-ran-again\n"), 0o644)
@@ -278,6 +294,10 @@ func checkCLI(t rep.Fataler, c AgentCase) {
 		fail(obs, "`blackdagger retry` ran the command of the edited definition file, not the recorded one (%s)", filepath.Base(m[0]))
 	}
 	for _, n := range want {
+		if _, err := os.Stat(filepath.Join(work, n+".arg with blanks")); err != nil {
+			l, _ := filepath.Glob(filepath.Join(work, n+".*"))
+			fail(obs, "the re-executed step %q did not receive the argument list of the recorded step (its last argument is \"arg with blanks\"); it left %v", n, l)
+		}
 		v, ok := view(n)
 		if !ok {
 			fail(obs, "step %q was re-executed but left no environment dump", n)
